@@ -20,6 +20,7 @@ import (
 	"bufio"
 	"context"
 	"fmt"
+	"io"
 	"os"
 	"os/exec"
 	"path/filepath"
@@ -69,14 +70,18 @@ func c03ImageWith(e *ssmEnv, point string, prep func(img string) bool) {
 		return
 	}
 	defer s2.Close(true)
-	if _, err := s2.WaitForLeader(15 * time.Second); err != nil {
-		e.t.Fatalf("image leader: %v", err)
+	if _, err := s2.WaitForLeader(60 * time.Second); err != nil {
+		ssmAbandonNow(fmt.Sprintf("crash image never elected a leader: %v", err))
 	}
-	for i := 0; i < 300; i++ {
+	err = fmt.Errorf("no barrier attempted")
+	for deadline := time.Now().Add(60 * time.Second); time.Now().Before(deadline); {
 		if err = s2.Barrier(); err == nil {
 			break
 		}
 		time.Sleep(50 * time.Millisecond)
+	}
+	if err != nil { // the log has not been re-applied yet: nothing to judge
+		ssmAbandonNow(fmt.Sprintf("crash image: barrier: %v", err))
 	}
 	e.emit("open", "ok")
 	got := ssmQueryDump(s2)
@@ -219,7 +224,9 @@ func c03ManualSnapshot(e *ssmEnv) {
 }
 
 func c03History(t *testing.T, rep *vfReport, r *vfRng, nOps int) (ops, impl []string) {
-	e := ssmNewEnv(t, rep, r, "C03", false)
+	var e *ssmEnv
+	defer ssmGuard(rep, &e, &ops, &impl)
+	e = ssmNewEnv(t, rep, r, "C03", false)
 	defer e.cleanup()
 	images := 0
 	// key 200 is a counter: every write before a snapshot increments it, so an entry
@@ -272,8 +279,189 @@ func c03History(t *testing.T, rep *vfReport, r *vfRng, nOps int) (ops, impl []st
 	return e.ops, e.impl
 }
 
+// c03BlockedCheckpoints is a directed history for "a restart that rebuilds from the snapshot
+// store and log": the table spans several pages; two consecutive snapshots are each blocked
+// from truncating the WAL by a read transaction parked at its end (the second reader starts
+// before the first ends, so SQLite keeps appending to the same WAL); then an acknowledged write
+// to the FIRST leaf page is followed only by writes to the LAST one, one more snapshot, and a
+// restart forced to rebuild. Whatever the snapshot store holds of the WAL segments (C06's
+// subject), the rebuilt table must be the acknowledged one.
+func c03BlockedCheckpoints(t *testing.T, rep *vfReport, r *vfRng) (ops, impl []string) {
+	var e *ssmEnv
+	defer ssmGuard(rep, &e, &ops, &impl)
+	e = ssmNewEnv(t, rep, r, "C03", false)
+	defer e.cleanup()
+	rows := ssmRef{}
+	n := 600 + r.Intn(200)
+	for k := 1; k <= n; k++ {
+		rows[k] = 1<<40 + r.Intn(1<<30)
+	}
+	e.load(rows, true)
+	e.snapshot(0) // the full snapshot
+	walSize := func() int64 {
+		st, err := os.Stat(e.s.walPath)
+		if err != nil {
+			return 0
+		}
+		return st.Size()
+	}
+	hi := func() []ssmStmt { return []ssmStmt{{"p", n - r.Intn(20), 1<<40 + r.Intn(1<<30)}} }
+	for i := 0; i < 4+r.Intn(4); i++ {
+		e.exec(false, hi())
+	}
+	e.park()
+	e.snapshot(0)
+	blocked := 0
+	if walSize() > 0 {
+		blocked++
+	}
+	for i := 0; i < 2+r.Intn(3); i++ {
+		e.exec(false, hi())
+	}
+	e.park()
+	e.unpark(1)
+	e.snapshot(0)
+	if walSize() > 0 {
+		blocked++
+	}
+	// the acknowledged write to the first leaf page, then many to the last one only
+	e.exec(false, []ssmStmt{{"p", 1 + r.Intn(20), 7}})
+	for i := 0; i < 15+r.Intn(15); i++ {
+		e.exec(false, hi())
+	}
+	e.unpark(-1)
+	e.snapshot(0)
+	e.dump("table-wrong-before-restart")
+	rep.Count(fmt.Sprintf("directed-blocked-checkpoints:snapshots-with-wal-left=%d", blocked))
+	if blocked < 2 {
+		rep.Note("directed history: the parked readers did not keep the WAL from being truncated twice")
+	}
+	e.closeStore()
+	if err := e.reopen(true); err != nil {
+		rep.Fail("reopen-failed", fmt.Sprintf("history %v: %v", c03Short(e.hist), err), nil)
+	} else if got, w := ssmQueryDump(e.s), e.want.String(); got != w {
+		e.emit("dump", got)
+		rep.Fail("rebuild-after-blocked-checkpoints-loses-acknowledged-write",
+			fmt.Sprintf("history %v: after a restart that rebuilds from the snapshot store and log, %s", c03Short(e.hist), c03Diff(e.want, got)),
+			map[string]interface{}{"history": c03Short(e.hist)})
+	} else {
+		e.emit("dump", got)
+	}
+	rep.Case("directed:blocked-checkpoints "+strings.Join(c03Short(e.hist), " "), true)
+	return e.ops, e.impl
+}
+
+// c03Short abbreviates the long row lists of the directed history.
+func c03Short(h []string) []string {
+	out := make([]string, len(h))
+	for i, s := range h {
+		if len(s) > 60 {
+			s = s[:60] + "…"
+		}
+		out[i] = s
+	}
+	return out
+}
+
+func c03Diff(want ssmRef, got string) string {
+	var d []string
+	have := map[string]bool{}
+	for _, kv := range strings.Split(got, ";") {
+		have[kv] = true
+	}
+	for k, v := range want {
+		if kv := fmt.Sprintf("%d=%d", k, v); !have[kv] {
+			d = append(d, "acknowledged "+kv+" is missing")
+		}
+	}
+	sort.Strings(d)
+	if len(d) > 5 {
+		d = append(d[:5], fmt.Sprintf("… (%d rows differ)", len(d)))
+	}
+	return strings.Join(d, ", ")
+}
+
+// c03InstallCrash: the crash point "a snapshot received from the leader is installed in the
+// snapshot store (sink closed), the process dies before FSM.Restore ran". What raft's
+// installSnapshot does is done by hand on the real store: the stream goes into a sink of the
+// snapshot store, the sink is closed; then the data directory is copied (the crash) and a store
+// is opened on the copy by a PLAIN restart: it must hold the received database, not the old file
+// under the new snapshot's index. Then FSM.Restore completes the install on the original.
+func c03InstallCrash(t *testing.T, rep *vfReport, r *vfRng) (ops, impl []string) {
+	var e *ssmEnv
+	defer ssmGuard(rep, &e, &ops, &impl)
+	e = ssmNewEnv(t, rep, r, "C03", false)
+	defer e.cleanup()
+	for i := 0; i < 1+r.Intn(3); i++ {
+		e.exec(r.Chance(30), e.genStmts())
+	}
+	e.exec(false, []ssmStmt{{"p", 100, r.Intn(1000)}})
+	if !e.snapshot(r.Intn(2)) { // the marker now vouches for the file as of THIS snapshot
+		return e.ops, e.impl
+	}
+	for i := 0; i < 1+r.Intn(2); i++ { // the leader's snapshot is ahead of the local one
+		e.exec(false, []ssmStmt{{"p", 100, r.Intn(1000)}, {"a", 1 + r.Intn(8), 1}})
+	}
+	rows := e.genRows()
+	rows[777] = 1
+	b := ssmMakeDB(e.t, e.dir, rows, false)
+	p := filepath.Join(e.dir, "verif-leader-snapshot.db")
+	if err := os.WriteFile(p, b, 0o644); err != nil {
+		t.Fatal(err)
+	}
+	defer os.Remove(p)
+	cf := e.s.raft.GetConfiguration()
+	if err := cf.Error(); err != nil {
+		e.opFailed("get configuration", err)
+	}
+	sink, err := e.s.snapshotStore.Create(1, e.s.raft.AppliedIndex(), e.s.raft.CurrentTerm(), cf.Configuration(), 1, nil)
+	if err != nil {
+		t.Fatalf("install: create sink: %v", err)
+	}
+	str, err := snapshot.NewSnapshotStreamer(p)
+	if err != nil {
+		t.Fatal(err)
+	}
+	if err := str.Open(); err != nil {
+		t.Fatal(err)
+	}
+	if _, err := io.Copy(sink, str); err != nil {
+		t.Fatalf("install: copy: %v", err)
+	}
+	str.Close()
+	if err := sink.Close(); err != nil {
+		t.Fatalf("install: close: %v", err)
+	}
+	os.Remove(p)
+	e.hist = append(e.hist, fmt.Sprintf("snapshot-from-leader-installed-in-store(%s)", rows))
+	e.emit("recv-snap "+rows.String(), "ok")
+	e.want = rows.clone() // what the node stands for from now on
+	rep.Count("op-install-sink-closed")
+	c03Image(e, "install-sink-closed-before-fsm-restore")
+	if e.broken {
+		rep.Case("directed:install-crash "+strings.Join(e.hist, " "), true)
+		return e.ops, e.impl
+	}
+	// the second half of the install, on the original
+	_, rc, err := e.s.snapshotStore.Open(sink.ID())
+	if err != nil {
+		t.Fatalf("install: open: %v", err)
+	}
+	if err := NewFSM(e.s).Restore(rc); err != nil {
+		t.Fatalf("install: restore: %v", err)
+	}
+	e.hist = append(e.hist, "fsm-restore")
+	e.emit("recv-restore", "ok")
+	e.dump("table-wrong-after-install")
+	if !e.broken {
+		c03Image(e, "after-install")
+	}
+	rep.Case("directed:install-crash "+strings.Join(e.hist, " "), true)
+	return e.ops, e.impl
+}
+
 func TestVerifC03(t *testing.T) {
-	rep := vfNewReport("C03", "crash images of real single-node stores: generated histories of write requests (incl. non-idempotent updates), loads, raft-driven snapshots with/without log truncation, step-by-step snapshots (checkpoint / persist / install / fingerprint) and clean restarts; at generated points the data directory is copied as a kill -9 would leave it and a new store is opened on the copy; non-trivial = at least one crash image; distinct by history text")
+	rep := vfNewReport("C03", "crash images of real single-node stores: generated histories of write requests (incl. non-idempotent updates), loads, raft-driven snapshots with/without log truncation, step-by-step snapshots (checkpoint / persist / install / fingerprint) and clean restarts, plus one directed history over a multi-page table (two consecutive snapshots whose WAL truncation is blocked by parked read transactions, a write to the first leaf page followed only by writes to the last, snapshot, restart forced to rebuild) and directed histories of the crash point 'snapshot from the leader installed in the store, FSM.Restore not run' followed by a plain restart; at generated points the data directory is copied as a kill -9 would leave it and a new store is opened on the copy; non-trivial = at least one crash image; distinct by history text")
 	defer rep.Write()
 	r := ssmRng(3)
 	n := vfScale(3, 40)
@@ -283,6 +471,15 @@ func TestVerifC03(t *testing.T) {
 		allOps = append(allOps, ops)
 		allImpl = append(allImpl, impl)
 	}
+	dops, dimpl := c03BlockedCheckpoints(t, rep, r)
+	allOps = append(allOps, dops)
+	allImpl = append(allImpl, dimpl)
+	for i := 0; i < vfScale(1, 8); i++ {
+		iops, iimpl := c03InstallCrash(t, rep, r)
+		allOps = append(allOps, iops)
+		allImpl = append(allImpl, iimpl)
+	}
+	ssmFloor(rep)
 	rep.vfCompareSegments("storesm", allOps, allImpl)
 }
 
@@ -334,17 +531,22 @@ func TestVerifC03Child(t *testing.T) {
 			t.Fatal(err)
 		}
 	}
-	if _, err := s.WaitForLeader(15 * time.Second); err != nil {
-		t.Fatal(err)
+	if _, err := s.WaitForLeader(120 * time.Second); err != nil {
+		os.Exit(0) // loaded machine: the parent sees "never ready" and abandons the round
 	}
-	for i := 0; i < 300; i++ {
+	for deadline := time.Now().Add(60 * time.Second); time.Now().Before(deadline); {
 		if err := s.Barrier(); err == nil {
 			break
 		}
 		time.Sleep(50 * time.Millisecond)
 	}
 	if from == 0 {
-		mustExecute(t, s, []string{ssmCreate})
+		if err := ssmRetry(s, func() error {
+			_, _, err := s.Execute(context.Background(), executeRequestFromStrings([]string{ssmCreate}, false, false))
+			return err
+		}); err != nil {
+			os.Exit(0)
+		}
 	}
 	j, err := os.OpenFile(filepath.Join(dir, "verif-ack-journal"), os.O_CREATE|os.O_WRONLY|os.O_APPEND, 0o644)
 	if err != nil {
@@ -358,7 +560,13 @@ func TestVerifC03Child(t *testing.T) {
 		for _, st := range ss {
 			qs = append(qs, st.sql())
 		}
-		if _, _, err := s.Execute(context.Background(), executeRequestFromStrings(qs, false, tx)); err != nil {
+		if err := ssmRetry(s, func() error {
+			_, _, err := s.Execute(context.Background(), executeRequestFromStrings(qs, false, tx))
+			return err
+		}); err != nil {
+			if ssmLoadRelated(err) {
+				os.Exit(0) // outcome unknown, not acknowledged: for the parent this is where the process died
+			}
 			t.Fatalf("child execute: %v", err)
 		}
 		fmt.Fprintf(j, "ack %d\n", i)
@@ -419,16 +627,26 @@ func TestVerifC03Kill(t *testing.T) {
 				t.Fatal(err)
 			}
 			os.Remove(filepath.Join(dir, "verif-ack-journal"))
-			deadline := time.Now().Add(60 * time.Second)
+			deadline := time.Now().Add(180 * time.Second)
+			neverReady := false
 			for {
 				if ready, _, _ := c03ReadJournal(dir); ready {
 					break
 				}
 				if time.Now().After(deadline) {
-					cmd.Process.Kill()
-					t.Fatalf("child never became ready")
+					neverReady = true
+					break
 				}
 				time.Sleep(20 * time.Millisecond)
+			}
+			ssmCasesStarted++
+			if neverReady {
+				cmd.Process.Kill()
+				cmd.Wait()
+				ssmCasesAbandoned++
+				rep.Count("case-abandoned:machine-load")
+				rep.Note("kill -9 round abandoned (machine load, not judged): the child did not become ready within 180 s")
+				break
 			}
 			delay := time.Duration(100+r.Intn(2400)) * time.Millisecond
 			time.Sleep(delay)
@@ -453,14 +671,23 @@ func TestVerifC03Kill(t *testing.T) {
 				ln.Close()
 				break
 			}
-			if _, err := s.WaitForLeader(15 * time.Second); err != nil {
-				t.Fatal(err)
-			}
-			for i := 0; i < 300; i++ {
-				if err := s.Barrier(); err == nil {
-					break
+			_, lerr := s.WaitForLeader(60 * time.Second)
+			if lerr == nil {
+				lerr = fmt.Errorf("no barrier attempted")
+				for deadline := time.Now().Add(60 * time.Second); time.Now().Before(deadline); {
+					if lerr = s.Barrier(); lerr == nil {
+						break
+					}
+					time.Sleep(50 * time.Millisecond)
 				}
-				time.Sleep(50 * time.Millisecond)
+			}
+			if lerr != nil { // the log has not been re-applied: nothing to judge
+				ssmCasesAbandoned++
+				rep.Count("case-abandoned:machine-load")
+				rep.Note("kill -9 round abandoned (machine load, not judged): reopened store not ready within 60 s: %v", lerr)
+				s.Close(true)
+				ln.Close()
+				break
 			}
 			got := ssmQueryDump(s)
 			path := "rebuild"
@@ -518,6 +745,7 @@ func TestVerifC03Kill(t *testing.T) {
 		}
 		os.RemoveAll(dir)
 	}
+	ssmFloor(rep)
 	rep.vfCompareSegments("storesm", allOps, allImpl)
 	_ = proto.ConsistencyLevel_NONE
 }
